@@ -89,6 +89,61 @@ def check_via_hdd(ctx, sts, rng, nsample):
         shutil.rmtree(work, ignore_errors=True)
 
 
+def plain_container_content(ctx, rng):
+    """Plain images whose guest content itself starts with something that looks like a disk container (an HDS image of
+    either version, a VMDK / QCOW2 / VHDX signature, an XML descriptor): the type comes from DiskDescriptor.xml, the
+    content must be served verbatim."""
+    from pathlib import Path
+
+    from dissect.hypervisor.disk.hdd import HDD
+    from harness import patterns
+
+    inner = {}
+    for ver in (1, 2):
+        vf, info = enc_hds.build({"ver": ver, "n": 3, "cb": 1, "bat": {0: 2, 1: 0, 2: 1}, "size": 3}, cluster_size=4096, P=3, file_id=7)
+        inner[f"hds-v{ver}"] = vf.peek_bytes(0, vf.size())
+    inner["kdmv"] = b"KDMV" + bytes(range(200))
+    inner["cowd"] = b"COWD" + bytes(60)
+    inner["qfi"] = b"QFI\xfb\x00\x00\x00\x03" + bytes(96)
+    inner["vhdxfile"] = b"vhdxfile" + bytes(100)
+    inner["xml"] = b'<?xml version="1.0"?><Parallels_disk_image/>'
+    work = tempfile.mkdtemp(prefix="verif-hddp-")
+    try:
+        for name, blob in inner.items():
+            for nstor in (1, 2):
+                total = (len(blob) + 3 * 4096 + 511) // 512 * 512
+                content = blob + patterns.pat(3, len(blob), total - len(blob))
+                d = os.path.join(work, f"{name}-{nstor}.hdd")
+                g = enc_hds.DEFAULT_TOP
+                os.makedirs(d)
+                if nstor == 1:
+                    stor = [(0, total // 512, [(g, "Plain", "disk.hdd")])]
+                    open(os.path.join(d, "disk.hdd"), "wb").write(content)
+                    want = content
+                else:
+                    # second storage: again a plain file that starts with the same look-alike
+                    stor = [(0, total // 512, [(g, "Plain", "disk.0.hdd")]), (total // 512, 2 * total // 512, [(g, "Plain", "disk.1.hdd")])]
+                    open(os.path.join(d, "disk.0.hdd"), "wb").write(content)
+                    open(os.path.join(d, "disk.1.hdd"), "wb").write(content)
+                    want = content + content
+                enc_hds.write_hdd_dir(d, stor, [(g, enc_hds.NULL_GUID)], {}, top_guid=g)
+                ctx.case(key=("plain-container", name, nstor), nontrivial=True)
+                try:
+                    s = HDD(Path(d)).open()
+                    got = s.read(len(want) + 10)
+                    s.seek(len(blob) // 2)
+                    got2 = s.read(4096)
+                except Exception as e:  # noqa: BLE001
+                    ctx.violation({"format": "hdd", "fail": "read-raised", "sub": "plain-container", "inner": name, "exc": type(e).__name__},
+                                  {"inner": name, "storages": nstor, "error": repr(e)[:300]})
+                    continue
+                if got != want or got2 != want[len(blob) // 2: len(blob) // 2 + 4096] or s.size != len(want):
+                    ctx.violation({"format": "hdd", "fail": "read-mismatch", "sub": "plain-container", "inner": name},
+                                  {"inner": name, "storages": nstor, "size": int(s.size), "want_size": len(want), "diff": disk.first_diff(want, got)})
+    finally:
+        shutil.rmtree(work, ignore_errors=True)
+
+
 def make_trace(tid, rng, nops=30, **opt):
     ver = rng.choice([1, 2])
     cs = rng.choice([1 << 20, 1 << 20, 65536, 4096, 63 * 512, 1000 * 512]) if ver == 2 else rng.choice([65536, 4096, 32768, 63 * 512, 24 * 512])
@@ -149,6 +204,7 @@ def run(ctx):
     diskprop.replay_states(ctx, "hds", sts, PROFILES_THOROUGH if thorough else PROFILES_QUICK, build,
                            attrs_of=_attrs, cap=80 if thorough else 48)
     check_via_hdd(ctx, sts, rng, 120 if thorough else 24)
+    plain_container_content(ctx, rng)
     diskprop.traces(ctx, "hds", lambda tid, r: make_trace(tid, r, 40 if thorough else 25, many=("mid" if tid % 8 == 0 else None)), 400 if thorough else 64,
                     "TraceDisk", "TraceDisk.cfg", lambda t: {"format": "hds", "ver": t["img"]["ver"], "parent": t["img"]["parent"]})
 
